@@ -12,6 +12,7 @@ CONSTANTS
  MaxEvents = 1
  MaxFaults = 0
  MaxTicks = 0
+ MaxBreaks = 0
  Export = TRUE
  RunToBlock = TRUE
  Mut = "none"
